@@ -174,6 +174,25 @@ CLAIMS.update({
         ref="DESIGN.md §3 C13"),
 })
 
+# sentences appended for rules added after the claim texts above were written (sixth seed round)
+EXTRA = {
+    "C01": " The default rule filter_after_early_return is evaluated as a whole (visitor walk included) on ~1 500 enumerated blocks and compared, for every oracle of 6 condition outcomes, with an independent reference semantics of Lua/Luau control flow (sa/astmodel.py); expressions_as_expression is additionally interpreted under short-circuit evaluation for every outcome of the kept calls.",
+    "C02": " The string writer shared by the generators is decided as under C13 (every byte and the structured long forms read back by an independent reader); the separation table is decided by evaluation when it is not a plain match.",
+    "C04": " Block::remove_statement is evaluated on comment layouts (the comments a removed statement hands to the next token keep their relative lines); a callback may not apply the line shift to what its node's own shift already reaches.",
+    "C06": " The remove_continue rule is evaluated as a whole (visitor walk, loop stack, re-nesting) on ~1 500 enumerated loop nests (4 loop kinds, nested loops with and without their own continue/break, loops inside functions, do blocks) and compared, for every oracle of 7 condition outcomes, with an independent reference semantics of Lua/Luau control flow (sa/astmodel.py): no continue is left and the trace of calls and condition evaluations is unchanged.",
+    "C08": " Folded arithmetic (+ - * / // % ^ on two number literals) is tabulated on 26x26 doubles per operator against IEEE arithmetic with C's pow/floor (bit for bit, or the evaluator declines).",
+    "C10": " Every addition to the list of files to delete asks is_in_place and does not depend on the item's processing status.",
+    "C11": " Every addition to the list of files to delete (the field drained into Resources::remove) is control-dependent on is_in_place.",
+    "C12": " The identifier predicate behind every bare-name write (is_valid_identifier) is tabulated on the reserved words and every character, non-ASCII letters included.",
+    "C13": " Strings that are not valid UTF-8 are covered with every byte followed by a digit / a letter.",
+    "C14": " The `[` `[[` pair (a long-bracket string used as a key) is kept apart by the separation table the generators share.",
+    "C15": " Requires ending in `.` / `..` are part of the domain.",
+    "C17": " expressions_as_expression is interpreted under short-circuit evaluation: every kept call runs once and in order whatever the calls return.",
+    "C18": " The header's line shift reaches each token once (no callback shifts what its node's own shift already reaches).",
+    "C19": " Where the reader installs the file filters before it calls configure(), no rule's configure() -- evaluated with the metadata marked -- replaces the metadata.",
+    "C20": " Marking a work item done is never control-dependent on a per-rule filter: only the top-level filters take a file out of the pipeline.",
+}
+
 NOT_APPLICABLE = {
 }
 
@@ -193,7 +212,7 @@ def main():
                 "evidence_file": "evidence/%s.json" % pid,
                 "replay_cmd_template": "./check %s --replay {path}" % pid,
                 "engine": "dlfacts+sa",
-                "level_claimed": {"category": "other", "text": c["text"], "design_ref": c["ref"]},
+                "level_claimed": {"category": "other", "text": c["text"] + EXTRA.get(pid, ""), "design_ref": c["ref"]},
                 "level_note": c["note"],
                 "technique": c["technique"],
             })
